@@ -48,7 +48,7 @@ func loadProgram(dir string) (*Verifier, error) {
 	prog.Build()
 	v := &Verifier{prog: prog, pkgs: map[string]*ssa.Package{}, fset: cfg.Fset, cs: NewContracts(),
 		heapLeaves: map[string]heapInfo{}, tcs: map[Mode]*Tcx{ModeBV: NewTcx(ModeBV), ModeInt: NewTcx(ModeInt)},
-		tables: map[string][]string{}, bounds: map[*Term]*big.Int{}, typeTags: map[string]int{}, tagTypes: map[int]types.Type{}}
+		tables: map[string][]string{}, bounds: map[*Term]*big.Int{}, typeTags: map[string]int{}, tagTypes: map[int]types.Type{}, usedTrusted: map[string]bool{}, usedAuto: map[string]bool{}}
 	for i, p := range spkgs {
 		if p == nil {
 			continue
@@ -69,6 +69,9 @@ func loadProgram(dir string) (*Verifier, error) {
 		}
 	})
 	if err != nil {
+		return nil, err
+	}
+	if err := v.cs.CheckDuplicates(); err != nil {
 		return nil, err
 	}
 	return v, nil
@@ -228,7 +231,3 @@ func cmdVerify(dir, only string, timeout int, outDir string, verbose bool) int {
 	return rc
 }
 
-func cmdCheck(args []string) int {
-	fmt.Fprintln(os.Stderr, "check: not implemented yet")
-	return 2
-}
